@@ -194,8 +194,8 @@ def check_builder_vs_wtml(builder, out_dir, what):
 # -- workloads ------------------------------------------------------------------
 
 def study_image(ch, kind):
-    w = (60, 256, 300, 520, 257, 700)[ch.draw(6, kind="img_w")]
-    h = (60, 256, 300, 520, 130, 513)[ch.draw(6, kind="img_h")]
+    w = (60, 256, 300, 520, 257, 700, 512, 1)[ch.draw(8, kind="img_w")]
+    h = (60, 256, 300, 520, 130, 513, 512, 255)[ch.draw(8, kind="img_h")]
     yy, xx = np.mgrid[0:h, 0:w]
     if kind == "rgb":
         arr = np.empty((h, w, 3), dtype=np.uint8)
@@ -344,8 +344,28 @@ def run_one(ch, env):
             res["probes"]["default_out_dir"] = int(default_out)
             nops = 1 + ch.draw(4, p0=0.35, kind="n_calls")
             hist = []
+            # one history in four starts in a directory that already holds a pyramid made with the OTHER tiling
+            # method (deeper TOAST / shallower TAN); the first call under test then has to override it
+            other_first = (not default_out) and ch.draw(4, kind="other_method_first") == 3
+            if other_first:
+                res["probes"]["override_of_other_method"] = 1
+
+                def pre():
+                    okw = {} if toast_mode else {"start": 2}
+                    return toasty.tile_fits(col.paths, out_dir=out, override=True, parallel=workers,
+                                            tiling_method=TilingMethod.TAN if toast_mode else TilingMethod.TOAST, **okw)
+
+                under_sim(pre, "tile_fits with the other tiling method into the same directory (pre-history)")
+                if state["violation"] or state["skip"]:
+                    other_first = False
+                    state["violation"] = None
+                    state["skip"] = None
+                    import shutil
+                    shutil.rmtree(out, ignore_errors=True)
             for k in range(nops):
                 override = ch.draw(2, kind="override") == 1
+                if k == 0 and other_first:
+                    override = True
                 hist.append(override)
                 if k > 0:
                     res["probes"]["history_override" if override else "history_reuse"] = 1
